@@ -899,6 +899,49 @@ pub fn run_history(acc: &mut Acc, r: &mut Rng, variant: u64, steps: u64, prop: &
             what = format!("swap {from}->{to_i} {amount}");
             ok = monitored_swap(acc, &mut wd, &pl);
             class.push(3 + (from * 3 + to_i) as u64);
+        } else if op < 76 && obs.s > 0 && wd.fees[0] > 0 {
+            // steer a pending protocol fee onto the collectable-minimum boundary (999 / 1000 / 1001), then collect
+            what = "steer pending fee to the collection threshold, then collect".into();
+            let ask = r.idx(3);
+            let from = (ask + 1 + r.idx(2)) % 3;
+            let target = *r.pick(&[1000u128, 1000, 1001, 999]);
+            if obs.pend[ask] < target {
+                let need = target - obs.pend[ask];
+                let (mut lo, mut hi) = (1u128, obs.r[from].saturating_mul(8).max(1_000_000));
+                let mut found = None;
+                for _ in 0..140 {
+                    if lo > hi {
+                        break;
+                    }
+                    let mid = lo + (hi - lo) / 2;
+                    match wd.simulate(from, ask, mid) {
+                        Ok(sm) => {
+                            let pf = sm.protocol_fee_amount.u128();
+                            if pf == need {
+                                found = Some(mid);
+                                break;
+                            } else if pf < need {
+                                lo = mid + 1;
+                            } else {
+                                hi = mid - 1;
+                            }
+                        }
+                        Err(_) => hi = mid - 1,
+                    }
+                }
+                if let Some(amount) = found {
+                    let pl = SwapPlan { user, from, to_i: ask, amount, belief: None, max_spread: Some(ONE18 / 2), to: None };
+                    if monitored_swap(acc, &mut wd, &pl) {
+                        if let Ok(o2) = wd.observe() {
+                            if o2.pend[ask] == target {
+                                acc.count(&format!("steer.pending=={target}.then-collect"));
+                            }
+                        }
+                        monitored_collect(acc, &mut wd, r.idx(4));
+                    }
+                }
+            }
+            class.push(13);
         } else if op < 79 {
             what = "collect".into();
             monitored_collect(acc, &mut wd, user);
